@@ -46,6 +46,8 @@ func main() {
 			os.Exit(2)
 		}
 		fn.WriteTo(os.Stdout)
+	case "audit":
+		os.Exit(auditMain())
 	case "unit":
 		if len(os.Args) < 4 {
 			usage()
